@@ -3,7 +3,8 @@ namespace CaddyModel.Gen
 
 /-- caddy.go / admin.go: per function, in source order, every lock operation on `rawCfgMu` (deferred ones
     prefixed `defer:`), every call of a function that reads or changes the admin config (`call:<name>`) and
-    every assignment to `rawCfgJSON`, `rawCfgIndex` or `rawCfg[…]` (`set:<name>`; function literals walked in place) -/
+    every assignment to `rawCfgJSON`, `rawCfgIndex` or `rawCfg[…]` (`set:<name>`; function literals walked in place,
+    package-level helpers of the two files inlined at their call sites) -/
 def configLocks : List (String × List String) := [
   ("changeConfig", ["Lock", "defer:Unlock", "call:etagHasher", "call:unsyncedConfigAccess", "call:unsyncedConfigAccess", "set:rawCfg", "set:rawCfg", "call:indexConfigObjects", "call:unsyncedDecodeAndRun", "set:rawCfgJSON", "set:rawCfgIndex"]),
   ("readConfig", ["RLock", "defer:RUnlock", "call:unsyncedConfigAccess"]),
